@@ -143,10 +143,18 @@ def mk_line(i):
     return Line(getattr(EL, name), q, tuple(tr))
 
 
+def mk_gaunt(g):
+    """None -> the provider's Gaunt factor; an int -> a user-supplied mock Gaunt factor distinguished by that seed."""
+    if g is None:
+        return None
+    from ..mocks import MockGauntFactor, rate_fn
+    return MockGauntFactor(rate_fn({"tag": "U", "seed": int(g)}, "free_free_gaunt_factor"))
+
+
 def mk_pmodel(m):
     k = m["kind"]
     if k == "brems":
-        return Bremsstrahlung()
+        return Bremsstrahlung(gaunt_factor=mk_gaunt(m.get("gaunt")))
     if k == "trp":
         return TotalRadiatedPower(getattr(EL, m["trp"][0]), m["trp"][1])
     line = mk_line(m["line"])
@@ -496,6 +504,17 @@ class PlasmaScene(SceneBase):
         self.live.plasma.models.add(mk_pmodel(m))
         self._mut("p_models_add:" + m["kind"])
 
+    def pre_p_brems_gaunt(self):
+        return any(m["kind"] == "brems" for m in self.rec["plasma"]["models"])
+
+    def do_p_brems_gaunt(self, g):
+        for m, obj in zip(self.rec["plasma"]["models"], list(self.live.plasma.models)):
+            if m["kind"] == "brems":
+                m["gaunt"] = g
+                obj.gaunt_factor = mk_gaunt(g)
+                break
+        self._mut("p_brems_gaunt:" + ("provider" if g is None else "user"))
+
     def do_p_models_clear(self, a):
         self.rec["plasma"]["models"] = []
         self.live.plasma.models.clear()
@@ -512,6 +531,7 @@ class PlasmaScene(SceneBase):
         "p_models_set": lambda: st.lists(_pmodel(), min_size=0, max_size=3),
         "p_models_add": _pmodel,
         "p_models_clear": lambda: st.just(None),
+        "p_brems_gaunt": lambda: st.sampled_from([None, 1, 2]),
     })
 
 
@@ -703,6 +723,17 @@ class BeamScene(SceneBase):
         self._b().models.clear()
         self._mut("b_models_clear")
 
+    def pre_b_bes_line(self):
+        return any(m["kind"] == "bes" for m in self.rec["beam"]["models"])
+
+    def do_b_bes_line(self, el):
+        for m, obj in zip(self.rec["beam"]["models"], list(self._b().models)):
+            if m["kind"] == "bes":
+                m["el"] = el
+                obj.line = Line(getattr(EL, el), 0, (3, 2))
+                break
+        self._mut("b_bes_line")
+
     def pre_b_cx_line(self):
         return any(m["kind"] == "cx" for m in self.rec["beam"]["models"])
 
@@ -735,6 +766,7 @@ class BeamScene(SceneBase):
         "b_models_add": _bmodel,
         "b_models_clear": lambda: st.just(None),
         "b_cx_line": lambda: st.sampled_from([4, 5]),
+        "b_bes_line": lambda: st.sampled_from(["deuterium", "hydrogen"]),
     })
 
 
